@@ -358,3 +358,50 @@ def history_jobs(rng, n, length, run0, backends=("inmemory", "sqlite"), drivers=
                      "cfg": {"days": days, "versions": vers}, "nclients": ncl, "steps": steps,
                      "first_free": 1, "kind": "history"})
     return jobs
+
+
+def overlap_jobs(rng, n, run0, backends=("inmemory", "sqlite"), prefix="ov", rounds=14):
+    """Uploads in flight at the same time over real sockets (one in-process HttpServer; 1 worker = every connection on the same
+    thread, 2 workers = spread): the pieces of 2-3 chunked uploads are sent interleaved, other requests are served in between.
+    The order of completion is the sequential history the judge explains the responses by."""
+    jobs = []
+    for k in range(n):
+        ncl = 3
+        steps = [{"op": "AddVersion", "c": 1, "arg": {"sym": "nil"}}, {"op": "AddVersion", "c": 1, "arg": {"sym": "latest", "of": 1}},
+                 {"op": "AddVersion", "c": 2, "arg": {"sym": "nil"}}, {"op": "AddSnapshot", "c": 2, "arg": {"sym": "latest", "of": 2}},
+                 {"op": "AddVersion", "c": 3, "arg": {"sym": "rnd", "k": 5}}]
+        for r in range(rounds):
+            ups = []
+            for _ in range(rng.choice([2, 2, 3])):
+                c = rng.randint(1, ncl)
+                op = rng.choice(["AddVersion", "AddSnapshot", "AddSnapshot"])
+                arg = rng.choice([{"sym": "latest", "of": c}, {"sym": "latest", "of": c}, {"sym": "anc", "of": c, "k": 1}])
+                ups.append({"op": op, "c": c, "arg": arg, "gen": {"cls": rng.choice(["random", "zeros", "ascii", "random"]), "size": rng.choice([7, 300, 5000, 70000]),
+                                                                  "seed": rng.randint(1, 10**6)}, "pieces": rng.randint(2, 4)})
+            order = [i for i, u in enumerate(ups) for _ in range(u["pieces"])]
+            rng.shuffle(order)
+            # every upload has begun (one piece each) before the first one completes, more often than not
+            if rng.random() < 0.7:
+                first = list(range(len(ups)))
+                rest = list(order)
+                for i in first:
+                    rest.remove(i)
+                order = first + rest
+            between = []
+            for _ in range(rng.randint(1, 3)):
+                c = rng.randint(1, ncl)
+                between.append(rng.choice([
+                    {"op": "GetChildVersion", "c": c, "arg": {"sym": "anc", "of": c, "k": 1}},
+                    {"op": "GetSnapshot", "c": c},
+                    {"op": "AddVersion", "c": c, "arg": {"sym": "latest", "of": c}},
+                    {"op": "AddSnapshot", "c": c, "arg": {"sym": "latest", "of": c}},
+                    {"op": "GetChildVersion", "c": c, "arg": {"sym": "latest", "of": c}}]))
+            order.insert(rng.randint(1, max(1, len(order) - 1)), -1)
+            steps.append({"op": "Overlap", "c": 0, "uploads": ups, "order": order, "between": between, "pause_ms": rng.choice([5, 15, 30])})
+            c = rng.randint(1, ncl)
+            steps += [{"op": "GetSnapshot", "c": c}, {"op": "GetChildVersion", "c": c, "arg": {"sym": "anc", "of": c, "k": 1}}]
+        for c in range(1, ncl + 1):
+            steps += [{"op": "GetSnapshot", "c": c}, {"op": "Walk", "c": c, "from": {"sym": "base"}}]
+        jobs.append({"id": f"{prefix}{k}", "run": run0 + k, "backend": backends[k % len(backends)], "driver": "sock", "workers": 1 if k % 4 < 3 else 2,
+                     "cfg": {"days": 14, "versions": 100}, "nclients": ncl, "steps": steps, "first_free": 1, "kind": "overlap"})
+    return jobs
